@@ -90,7 +90,7 @@ func init() {
 		Rule: fmt.Sprintf("one run = one signing or verifying entry point (Sign1, Sign1Untagged, Sign1Message.Sign, Signature.Sign, Countersignature.Sign, Countersign0, SignHashEnvelope, SignMessage.Sign with n <= %d signers; Sign1Message.Verify, Signature.Verify, Countersignature.Verify, VerifyCountersign0, VerifyHashEnvelope, SignMessage.Verify with n <= %d verifiers) "+
 			"driven under one fault vector: each signer call is assigned one of {ok, signer.err, signer.empty, signer.nil, signer.bytes+err, hsm.err, hsm.badDER, hsm.empty, entropy.err@k, entropy.short}, each verifier call one of {ok, verifier.err}. "+
 			"The thorough tier enumerates ALL %d (entry point, n, vector) combinations, each under %d tape-drawn contexts (headers, payload, keys/algorithms, external data, k); the quick tier samples vectors from the tape. "+
-			"Oracle: any error kind => the call returns a non-nil error that wraps the injected one, returns no bytes, leaves the failing slot's signature empty, MarshalCBOR of the message errors, and no later signer/verifier was called; an empty-returning signer must surface as an error by MarshalCBOR at the latest and no helper returns bytes; entropy.short => success and the signature verifies; "+
+			"Oracle: any error kind => the call returns a non-nil error that wraps the injected one, returns no bytes, leaves the failing slot's signature empty, MarshalCBOR of the message errors, and no later signer/verifier was called; an empty-returning signer must surface as an error by MarshalCBOR at the latest and no helper returns bytes; entropy.short => success and the signature verifies; an ECDSA or PSS signature produced without the caller's entropy source having been read is reported (the injected failure could not surface); "+
 			"verifier.err at any position is returned, never nil, and later verifiers are not consulted; the reference parser finds no zero-length signature in anything emitted. "+
 			"Non-trivial = every run (a vector was executed and judged); distinct = distinct (entry point, n, fault vector as fired, outcome).", c20MaxN, c20MaxN, len(c20AllVectors), C20ContextsPerVector),
 		Assumptions: []string{"exhaustive over the fault dimension (vectors), sampled over contexts", "an entropy fault that the algorithm never reads far enough to meet (Ed25519, k beyond what is read) counts as ok for that call"},
